@@ -15,7 +15,7 @@ def cells():
     from .refgraph import gops_lang, gops2_lang
     out = []
     ops = families.ops_lang()
-    out.append(('OPS/a', ops, [('h1', 'Host', {}), ('h2', 'Host', {'hardened': 0}), ('d1', 'Data', {'encrypted': 1})],
+    out.append(('OPS/a', ops, [('h1', 'Host', {'patched': -0.0}), ('h2', 'Host', {'hardened': 0}), ('d1', 'Data', {'encrypted': 1})],
                 [('Peer', 'peers', ['h1'], 'peersOf', ['h2']), ('Holds', 'owner', ['h1'], 'datas', ['d1']),
                  ('Run', 'host', ['h1'], 'apps', ['h2']), ('Link_Host_Data', 'hostL', ['h1', 'h2'], 'dataL', ['d1'])],
                 [('h1', ['access', 'root']), ('d1', ['read'])]))
